@@ -284,6 +284,13 @@ func (fx *fnExec) goBinop(op token.Token, a, b SV, opTyp types.Type, bTyp types.
 			fx.oblige("overflow", "overflow", inRange(r, ii), where, fmt.Sprintf("%s in %d-bit signed range", op, ii.w))
 			return Sc{r, opTyp}
 		}
+		if ii.signed {
+			// overflow obligations switched off: wrap-around semantics, through a named constant with the
+			// in-range shortcut (the common case) spelled out for the solver
+			w := fx.freshConst("wr", SInt)
+			fx.assume(tEq(w, Term{"(ite " + inRange(r, ii).S + " " + r.S + " " + wrapInt(r, ii).S + ")", SInt}))
+			return Sc{w, opTyp}
+		}
 		return Sc{wrapInt(r, ii), opTyp}
 	}
 	switch op {
